@@ -61,7 +61,7 @@ func main() {
 		},
 		Run:         run,
 		RaceKey:     raceKey,
-		MustObserve: []string{"events_handled", "handler_entries_while_another_handler_was_running", "secondary_entries_checked_against_primaries", "same_instant_children", "late_primaries(scheduled_by_a_secondary_of_the_instant)", "programs_with_several_entry_orders", "runs_with_hooks"},
+		MustObserve: []string{"events_handled", "handler_entries_while_another_handler_was_running", "secondary_entries_checked_against_primaries", "same_instant_children", "late_primaries(scheduled_by_a_secondary_of_the_instant)", "programs_with_several_entry_orders", "runs_with_hooks", "secondaries_scheduled_after_a_late_primary_of_their_instant"},
 		BatchTimeout: func(tier string) time.Duration {
 			if tier == "thorough" {
 				return 40 * time.Minute
@@ -153,6 +153,9 @@ type monitor struct {
 
 	mu         sync.Mutex
 	unfinished map[uint64]ev
+	seqOf      map[uint64]uint64 // order in which events were handed to Schedule (under mu)
+	seq        uint64
+	lateThenSec int
 	byTime     map[uint64]*tcount // unfinished per time: all / primaries bound by the phase rule
 	handled    map[uint64]int
 	inflight   int
@@ -176,6 +179,8 @@ func (m *monitor) failLocked(key, format string, a ...any) {
 
 func (m *monitor) addLocked(e ev) {
 	m.unfinished[e.uid] = e
+	m.seq++
+	m.seqOf[e.uid] = m.seq
 	c := m.byTime[e.t]
 	if c == nil {
 		c = &tcount{}
@@ -228,6 +233,18 @@ func (m *monitor) Handle(evt timing.Event) error {
 				runtime.GOMAXPROCS(0), e.uid, e.t, c.pri, w.uid, m.inflight)
 		}
 	}
+	if e.sec {
+		// A primary that a secondary of this instant scheduled ("late") cannot precede the secondaries that existed
+		// before it, but a secondary handed to Schedule AFTER that primary must wait for it like for any other primary.
+		for _, u := range m.unfinished {
+			if u.t == e.t && !u.sec && u.late && m.seqOf[u.uid] < m.seqOf[e.uid] {
+				m.failLocked("par/secondary-started-before-an-earlier-scheduled-primary-of-the-instant",
+					"GOMAXPROCS=%d: secondary event %x @%d entered its handler while primary %x of the same instant, handed to Schedule before it, was unfinished; %d handler(s) in flight",
+					runtime.GOMAXPROCS(0), e.uid, e.t, u.uid, m.inflight)
+				break
+			}
+		}
+	}
 	if m.inflight > 0 {
 		m.overlap++
 	}
@@ -239,9 +256,15 @@ func (m *monitor) Handle(evt timing.Event) error {
 	m.mu.Unlock()
 
 	m.p.work(e)
+	sawLate := false
 	for _, c := range m.p.children(e) {
 		m.mu.Lock()
 		m.addLocked(c)
+		if c.late {
+			sawLate = true
+		} else if sawLate && c.sec && c.t == e.t {
+			m.lateThenSec++
+		}
 		if c.t == e.t {
 			m.zeroKids++
 		}
@@ -304,7 +327,7 @@ func run(b kit.Batch, r *kit.R) {
 		failed := false
 		for rep := 0; rep < prm.Repeats; rep++ {
 			hooked := (rep+hookedFirst)%2 == 0
-			m := &monitor{p: p, eng: timing.NewParallelEngine(), unfinished: map[uint64]ev{}, byTime: map[uint64]*tcount{},
+			m := &monitor{p: p, eng: timing.NewParallelEngine(), unfinished: map[uint64]ev{}, seqOf: map[uint64]uint64{}, byTime: map[uint64]*tcount{},
 				handled: map[uint64]int{}, hookBefore: map[uint64]int{}, hookAfter: map[uint64]int{}, fails: map[string]string{}}
 			for i := 0; i < p.H; i++ {
 				m.eng.RegisterHandler(hnames[i], m)
@@ -360,6 +383,7 @@ func run(b kit.Batch, r *kit.R) {
 			r.Count("handler_entries_while_another_handler_was_running", int64(m.overlap))
 			r.Count("same_instant_children", int64(m.zeroKids))
 			r.Count("late_primaries(scheduled_by_a_secondary_of_the_instant)", int64(m.lateKids))
+			r.Count("secondaries_scheduled_after_a_late_primary_of_their_instant", int64(m.lateThenSec))
 			r.Distinct("entry_orders(gomaxprocs,program,order)", fmt.Sprintf("%d/%x/%x", runtime.GOMAXPROCS(0), p.Seed, m.orderHash))
 			m.mu.Unlock()
 		}
